@@ -56,3 +56,20 @@ pub fn hexs(b: &[u8]) -> String {
 pub fn first_diff(a: &[u8], b: &[u8]) -> usize {
     a.iter().zip(b.iter()).position(|(x, y)| x != y).unwrap_or(a.len().min(b.len()))
 }
+
+use crate::engine::{catch, loc_class, Fail};
+
+/// Run one public-API call; a panic becomes a `Fail` whose signature names the operation,
+/// the source file of the panic and its message (the key used by known_findings.json).
+pub fn call<T>(op: &str, f: impl FnOnce() -> T) -> Result<T, Fail> {
+    match catch(f) {
+        Ok(v) => Ok(v),
+        Err(p) => {
+            let msg: String = p.msg.chars().take(120).collect();
+            Err(Fail::with_sig(
+                format!("panic in {op}: '{}' at {}", p.msg, p.loc),
+                format!("panic|{op}|{}|{}", loc_class(&p.loc), msg),
+            ))
+        },
+    }
+}
